@@ -1,6 +1,7 @@
 package rules
 
 import (
+	"os"
 	"fmt"
 	"go/constant"
 	"go/token"
@@ -61,6 +62,12 @@ func filterKind(a an.PathAtom) string {
 			case "(net/netip.Prefix).Overlaps":
 				return "Overlaps"
 			}
+			// slices.Contains(acc, v) where acc is the slice the loop is filling: "already emitted"
+			if o := e.Fn.Origin(); (e.Fn.Name() == "Contains" || (o != nil && o.Name() == "Contains")) && len(e.Args) == 2 && e.Args[0].Op == an.OpLoop {
+				if fo := an.FuncObj(e.Fn); fo != nil && fo.Pkg() != nil && fo.Pkg().Path() == "slices" {
+					return "Seen"
+				}
+			}
 			return "call:" + e.Fn.Name()
 		}
 		return "call:" + e.Name
@@ -103,6 +110,9 @@ func kindPol(a an.PathAtom) (string, string) {
 	pos := a.Pos
 	if k == "IsSingleIP" && a.Cond.Op == an.OpBin && a.Cond.Tok == token.NEQ {
 		pos = !pos
+	}
+	if k == "BitsMismatch" && a.Cond.Op == an.OpBin && a.Cond.Tok == token.EQL {
+		pos = !pos // written as a match test
 	}
 	if pos {
 		return k, "+"
@@ -156,19 +166,47 @@ func iterationPaths(c *Ctx, rule string, fn *ssa.Function) (iters []iterPath, re
 	return
 }
 
-// dropKinds returns, for dropping iterations, the deciding (last positive or
-// Self/Bits combination) kinds; for keep iterations, the list of negated kinds.
-func summariseFilter(iters []iterPath) (drops map[string]bool, keeps [][]string) {
+// summariseFilter: keeps lists, for every appending iteration, its atom
+// kinds. A condition k (a positive kind such as "+Is4") counts as a drop
+// condition when some iteration on which it holds drops the element and no
+// iteration on which it holds keeps it; this does not depend on where in the
+// path the decision is taken (early continue, or boolean variables combined
+// later). Dropping iterations on which none of the wanted conditions holds are
+// returned as unjustified.
+func summariseFilter(iters []iterPath, want map[string]bool) (drops map[string]bool, keeps [][]string, unjustified [][]string) {
 	drops = map[string]bool{}
+	keptWith := map[string]bool{}
 	for _, it := range iters {
 		if len(it.appends) > 0 {
 			keeps = append(keeps, it.kinds)
+			for _, k := range it.kinds {
+				keptWith[k] = true
+			}
+		}
+	}
+	for _, it := range iters {
+		if len(it.appends) > 0 || len(it.kinds) == 0 {
 			continue
 		}
-		if len(it.kinds) == 0 {
+		just := false
+		for _, k := range it.kinds {
+			if strings.HasPrefix(k, "+") && !keptWith[k] {
+				if want[k] {
+					just = true
+				}
+			}
+		}
+		if just {
+			for _, k := range it.kinds {
+				if want[k] && !keptWith[k] {
+					drops[k] = true
+				}
+			}
 			continue
 		}
+		// not justified by a documented condition: the deciding atom names the extra filter
 		drops[it.kinds[len(it.kinds)-1]] = true
+		unjustified = append(unjustified, it.kinds)
 	}
 	return
 }
@@ -180,6 +218,55 @@ func kindSetString(m map[string]bool) string {
 	}
 	sort.Strings(ks)
 	return strings.Join(ks, " ")
+}
+
+// existsConjunctions resolves the last slices.ContainsFunc(s, pred) atom of a
+// path: pred (a closure; its captured variables are bound to their values on
+// the path) is enumerated, and for every path on which it can return true the
+// conditions established are returned (a result that is itself a condition
+// counts as established).
+func existsConjunctions(c *Ctx, rule string, p *an.Path) ([][]an.PathAtom, bool) {
+	var call *an.Expr
+	for _, a := range p.Atoms {
+		if a.Pos && a.Cond.Op == an.OpCall && a.Cond.Fn != nil && len(a.Cond.Args) == 2 {
+			if fo := an.FuncObj(a.Cond.Fn); fo != nil && fo.Name() == "ContainsFunc" && fo.Pkg() != nil && fo.Pkg().Path() == "slices" {
+				call = a.Cond
+			}
+		}
+	}
+	if call == nil {
+		return nil, false
+	}
+	pred := call.Args[1]
+	if pred.Op != an.OpClosure || pred.Fn == nil {
+		return nil, false
+	}
+	ps, err := c.XO.PathsBoundFV(pred.Fn, nil, pred.Args, an.PathOpts{InlinePaths: c.helperInline(pred.Fn)})
+	if err != nil {
+		c.R.Undecided(rule, "paths:"+c.fname(pred.Fn), c.fname(pred.Fn), c.pos(pred.Fn.Pos()), err.Error())
+		return nil, false
+	}
+	var out [][]an.PathAtom
+	for _, q := range ps {
+		if q.Ret == nil || len(q.Results) != 1 {
+			continue
+		}
+		res := q.Results[0]
+		atoms := append([]an.PathAtom{}, q.Atoms...)
+		if v, isConst := an.FoldBool(res); isConst {
+			if !v {
+				continue
+			}
+		} else if res.Op == an.OpConst {
+			if res.IsConst("false") {
+				continue
+			}
+		} else {
+			atoms = append(atoms, an.PathAtom{Cond: res, Pos: true})
+		}
+		out = append(out, atoms)
+	}
+	return out, len(out) > 0
 }
 
 // sortedBeforeReturn checks that on the success return path a stable sort of
@@ -291,8 +378,13 @@ func runC13(c *Ctx) {
 	}
 	name := c.fname(cur)
 	iters, rets := iterationPaths(c, "R-C13-1", cur)
-	drops, keeps := summariseFilter(iters)
+	if os.Getenv("DEBUG_ITERS") != "" {
+		for _, it := range iters {
+			fmt.Fprintf(os.Stderr, "ITER appends=%d kinds=%v\n", len(it.appends), it.kinds)
+		}
+	}
 	want := map[string]bool{"+Is4": true, "+IsLinkLocalUnicast": true, "+BitsMismatch": true, "+Temporary": true, "+Tentative": true, "+Seen": true}
+	drops, keeps, _ := summariseFilter(iters, want)
 	for k := range want {
 		c.R.Check(drops[k], "R-C13-1", name+":drops"+k, name, c.pos(cur.Pos()), "drop conditions found: "+kindSetString(drops), "an address is dropped when "+k[1:],
 			"an ineligible address (IPv4, link-local, other prefix length, temporary, tentative, duplicate network) is advertised as a prefix")
@@ -328,6 +420,22 @@ func runC13(c *Ctx) {
 			okKey, okIns := false, false
 			for _, a := range it.p.Atoms {
 				if filterKind(a) == "Seen" {
+					if a.Cond.Op == an.OpCall {
+						// slices.Contains(accumulator, key): the accumulator is the set, the append inserts
+						key := a.Cond.Args[1]
+						okKey = sameValue(key, v) || key.String() == v.String()
+						acc := a.Cond.Args[0]
+						it.p.Instrs(func(in ssa.Instruction) {
+							if call, ok := in.(*ssa.Call); ok {
+								if b, ok := call.Call.Value.(*ssa.Builtin); ok && b.Name() == "append" {
+									if e := it.p.Of(call); e.Op == an.OpAppend && len(e.Args) == 2 && e.Args[0].Op == an.OpLoop && e.Args[0].V == acc.V {
+										okIns = true
+									}
+								}
+							}
+						})
+						continue
+					}
 					key := a.Cond.Args[0].Args[1]
 					okKey = sameValue(key, v) || key.String() == v.String()
 				}
@@ -971,6 +1079,7 @@ func runC15(c *Ctx) {
 	drops := map[string]bool{}
 	var keeps [][]string
 	var coverConj [][]string
+	var coverDecisions [][]an.PathAtom // the atoms of each "covered" decision (loop form: the iteration's; slices.ContainsFunc: the predicate's)
 	for _, it := range iters {
 		if it.p.CutTo != outer {
 			continue // inner-loop continuation
@@ -990,6 +1099,23 @@ func runC15(c *Ctx) {
 			continue
 		}
 		last := ks[len(ks)-1]
+		if strings.HasPrefix(last, "+call:ContainsFunc") {
+			// covered := slices.ContainsFunc(routes, func(other) bool { … }): the element is dropped when the
+			// predicate holds for some other element; the predicate's true-paths are the covered decision
+			if conjs, ok := existsConjunctions(c, "R-C15-2", it.p); ok {
+				for _, atoms := range conjs {
+					var conj []string
+					for _, a := range atoms {
+						k, pol := kindPol(a)
+						conj = append(conj, pol+k)
+					}
+					coverConj = append(coverConj, conj)
+					coverDecisions = append(coverDecisions, atoms)
+				}
+				drops["+Covered"] = true
+				continue
+			}
+		}
 		if last == "+Contains" || last == "+BitsOrder" || last == "+Self" || last == "-Self" || last == "+Overlaps" {
 			// the covered decision: collect the positive conjunction after the basic filters
 			var conj []string
@@ -1000,6 +1126,7 @@ func runC15(c *Ctx) {
 				conj = append(conj, k)
 			}
 			coverConj = append(coverConj, conj)
+			coverDecisions = append(coverDecisions, it.p.Atoms)
 			drops["+Covered"] = true
 			continue
 		}
@@ -1033,20 +1160,69 @@ func runC15(c *Ctx) {
 			okCover = false
 		}
 	}
-	// operand roles of the covered test
-	roles := ""
+	// operand roles of the covered test: "this" is the route the iteration may append
+	thisStr := ""
 	for _, it := range iters {
-		for _, a := range it.p.Atoms {
+		if len(it.appends) == 1 {
+			thisStr = it.appends[0].String()
+		}
+	}
+	roles := ""
+	isThis := func(e *an.Expr) bool { return thisStr != "" && e.String() == thisStr }
+	isOther := func(e *an.Expr) bool { return e.IsField("Prefix") && !isThis(e) }
+	bitsArg := func(e *an.Expr) *an.Expr {
+		if e.Op == an.OpCall && e.Fn != nil && e.Fn.String() == "(net/netip.Prefix).Bits" {
+			return e.Args[0]
+		}
+		return nil
+	}
+	for _, atoms := range coverDecisions {
+		okDiffer, okContain, okShorter := false, false, false
+		for _, a := range atoms {
 			switch filterKind(a) {
+			case "Self":
+				x, y := a.Cond.Args[0], a.Cond.Args[1]
+				differ := (a.Cond.Tok == token.NEQ) == a.Pos
+				if differ && ((isThis(x) && isOther(y)) || (isOther(x) && isThis(y))) {
+					okDiffer = true
+				}
 			case "Contains":
-				// rt2.Prefix.Contains(rt.Prefix.Addr())
+				// other.Contains(this.Addr())
 				recv, arg := a.Cond.Args[0], a.Cond.Args[1]
-				if recv.IsField("Prefix") && arg.Op == an.OpCall && arg.Fn != nil && arg.Fn.String() == "(net/netip.Prefix).Addr" && arg.Args[0].IsField("Prefix") && recv.String() != arg.Args[0].String() {
+				if a.Pos && isOther(recv) && arg.Op == an.OpCall && arg.Fn != nil && arg.Fn.String() == "(net/netip.Prefix).Addr" && isThis(arg.Args[0]) {
+					okContain = true
 					roles += "contains(other, this);"
+				} else {
+					roles += fmt.Sprintf("contains(%s, %s);", shortElem(recv), shortElem(arg))
+				}
+			case "Overlaps":
+				if a.Pos {
+					okContain = true // symmetric; together with "other is shorter" it is containment
+					roles += "overlaps;"
 				}
 			case "BitsOrder":
-				roles += fmt.Sprintf("bits(%s %s %s);", shortElem(a.Cond.Args[0]), a.Cond.Tok, shortElem(a.Cond.Args[1]))
+				x, y, op, ok := effCmp(a)
+				if !ok {
+					continue
+				}
+				bx, by := bitsArg(x), bitsArg(y)
+				if bx == nil || by == nil {
+					continue
+				}
+				if isThis(bx) && isOther(by) {
+					bx, by, op = by, bx, flip(op)
+				}
+				if isOther(bx) && isThis(by) && (op == token.LSS || op == token.LEQ) {
+					okShorter = true
+					roles += "bits(other " + op.String() + " this);"
+				} else {
+					roles += fmt.Sprintf("bits(%s %s %s);", shortElem(bx), op, shortElem(by))
+				}
 			}
+		}
+		if !(okDiffer && okContain && okShorter) {
+			okCover = false
+			roles += fmt.Sprintf("[decision lacks: differ=%v contains(other,this)=%v other-shorter=%v]", okDiffer, okContain, okShorter)
 		}
 	}
 	c.R.Check(okCover, "R-C15-2", name+":covered-test", name, c.pos(cur.Pos()), fmt.Sprintf("covered decision conjunctions: %v; %s", coverConj, roles),
